@@ -28,11 +28,11 @@ ASSUMPTIONS = [
 
 S0 = world.tosec("2020-02-01T00:00:00")
 DT = 600
-VARS = ("pid", "X", "Y", "Z", "age", "temp", "tag")
+VARS = ("pid", "X", "Y", "Z", "age", "temp", "tag", "dose", "active")
 
 
 def bounds(tier, seed):
-    return dict(schemes=["EF", "RK2", "RK4"], release=["discrete", "continuous"], deaths=["none", "ibm", "leave", "both"], scalar=[True], numrec=[1, 2, 3],
+    return dict(schemes=["EF", "RK2", "RK4"], release=["discrete", "continuous", "late"], deaths=["none", "ibm", "leave", "both"], scalar=[True], numrec=[1, 2, 3],
                 nsteps=[12, 13] if tier == "quick" else [8, 12, 13, 17], periods=[2] if tier == "quick" else [1, 2, 3])
 
 
@@ -66,7 +66,8 @@ W, BASE = make_world()
 def frames(nsteps):
     out = []
     for s, c in ((-1, 1.0), (5, 1.5), (9, 0.75), (nsteps + 2, 1.25)):
-        out.append(dict(t=S0 + s * DT, u=BASE["u"] * c, v=BASE["v"] * c, temp=BASE["temp"] + s))
+        off = 200 if s == 5 else 0  # one frame is NOT on the step lattice (mid-interval time stamp)
+        out.append(dict(t=S0 + s * DT + off, u=BASE["u"] * c, v=BASE["v"] * c, temp=BASE["temp"] + s))
     return out
 
 
@@ -79,16 +80,18 @@ def setup(case, d):
     pos = [(3.3, 3.6, 5.0), (4.7, 2.4, 20.0), (9.2 if east else 5.2, 5.2, 10.0), (2.6, 4.1, 30.0)]
     if case["release"] == "discrete":
         sched = [(0, 0, 2), (0, 1, 1), (3, 2, 1), (4, 3, 1), (7, 0, 1), (10, 1, 2)]
+    elif case["release"] == "late":  # nothing is released during the first three steps
+        sched = [(3, 0, 2), (4, 1, 1), (7, 2, 1), (10, 3, 1)]
     else:
         sched = [(0, 0, 1), (0, 2, 1), (7, 1, 1)]  # the second file time is NOT on the 3-step tick grid
     for slot, pi, mult in sched:
         x, y, z = pos[pi]
         rows.append(dict(mult=mult, release_time=world.iso(S0 + slot * DT), X=x, Y=y, Z=z, tag=100 + 10 * slot + pi, weight=1.5 + slot + pi / 8))
     rel_extra = dict(continuous=True, release_frequency=3 * DT) if case["release"] == "continuous" else {}
-    ibm = dict(module=drive.plug("sibm.py"), age=True)
+    ibm = dict(module=drive.plug("sibm.py"), age=True, dose=True, settle_age=4 * DT)
     if case["death"] in ("ibm", "both"):
         ibm["agelimit"] = 5 * DT
-    state = dict(instance_variables=dict(age="float", temp="float", tag="int"), default_values=dict(age=0.0, temp=0.0))
+    state = dict(instance_variables=dict(age="float", temp="float", tag="int", dose="float"), default_values=dict(age=0.0, temp=0.0, dose=0.0))
     pout = None
     if case["pvars"]:
         state["particle_variables"] = dict(weight="float", release_time="time")
@@ -103,6 +106,8 @@ def released_upto(case, step):
     """Reference count of particles released at steps 0..step (from the release table of setup())."""
     if case["release"] == "discrete":
         return sum(m for slot, _, m in [(0, 0, 2), (0, 1, 1), (3, 2, 1), (4, 3, 1), (7, 0, 1), (10, 1, 2)] if slot <= step)
+    if case["release"] == "late":
+        return sum(m for slot, _, m in [(3, 0, 2), (4, 1, 1), (7, 2, 1), (10, 3, 1)] if slot <= step)
     total, t = 0, 0
     while t <= step:
         total += 2 if t < 7 else 1  # file times 0 (two rows) and 7 (one row), ticks every 3 steps
@@ -116,6 +121,7 @@ def run_full(case, d):
                            tracker=dict(advection=case["scheme"]), state=state, ibm=ibm, particle_out=pout, extra_forcing=["temp"],
                            release_extra=rel_extra, filename="run.nc", reference=S0 - 86400)
     conf["output"]["instance_variables"]["tag"] = world.ovar("i4")
+    conf["output"]["instance_variables"]["active"] = world.ovar("i1")
     if case.get("packed"):  # a warm-started variable stored packed (integer + scale_factor/add_offset), exactly representable
         conf["output"]["instance_variables"]["age"] = world.ovar("i4", scale_factor=0.5, add_offset=100.0)
     drive.run_model(conf, d)
@@ -125,7 +131,7 @@ def run_full(case, d):
 def run_restart(case, d, conf0, k, files):
     conf = {sec: (dict(v) if isinstance(v, dict) else v) for sec, v in conf0.items()}
     conf["output"] = dict(conf0["output"], filename=str(d / f"re{k}_{k + 1:03d}.nc"))
-    conf["warm_start"] = dict(filename=str(d / files[k]), variables=["age", "temp", "tag"] + (["weight", "release_time"] if case["pvars"] else []))
+    conf["warm_start"] = dict(filename=str(d / files[k]), variables=["age", "temp", "tag", "dose", "active"] + (["weight", "release_time"] if case["pvars"] else []))
     conf["time"] = dict(conf0["time"])
     drive.run_model(conf, d)
 
@@ -207,7 +213,7 @@ def run_case(case):
                     continue
             if max(ref["vars"]["pid"].tolist() + [-1]) > max(full["records"][(k + 1) * r - 1]["vars"]["pid"].tolist() + [-1]):
                 released_after = True
-            for v in ("X", "Y", "Z", "age", "temp", "tag"):
+            for v in ("X", "Y", "Z", "age", "temp", "tag", "dose", "active"):
                 if not same(rec["vars"][v], ref["vars"][v]):
                     bad(f"values:{v}", f"record at step {step}: {v}={np.asarray(rec['vars'][v]).tolist()} expected {np.asarray(ref['vars'][v]).tolist()}", k)
         if case["pvars"]:
